@@ -69,6 +69,17 @@ pub(super) fn read_frequencies(src: &mut &[u8]) -> io::Result<Frequencies> {
         prev_sym = sym;
     }
 
+    // The frequencies are normalized to 12 bits. A larger total overflows the cumulative
+    // frequencies and the state step.
+    let sum: u32 = frequencies.iter().copied().map(u32::from).sum();
+
+    if sum > 4096 {
+        return Err(io::Error::new(
+            io::ErrorKind::InvalidData,
+            "invalid frequencies",
+        ));
+    }
+
     Ok(frequencies)
 }
 
